@@ -373,7 +373,16 @@ def gen_count_formula(ctx: Ctx) -> Optional[List[Any]]:
     if not pairs:
         return None
     x, n = rng.choice(pairs)
-    style = rng.choice(["fixed", "fixed_forall", "equal", "exists_int_single"])
+    style = rng.choice(["fixed", "fixed_forall", "equal", "exists_int_single", "bounded_per_element", "bounded_per_element", "bounded_global"])
+    if style in ("bounded_per_element", "bounded_global"):
+        # the CSV example of the specification: an integer bound by `exists int` that
+        # occurs in a count atom and in a comparison with a constant
+        v = ctx.fresh(x[1:-1])
+        i = ctx.fresh("num")
+        bound = ["smt", [rng.choice([">=", ">=", "<=", ">"]), ["str.to.int", ["v", i]], ["i", rng.randint(1, 4)]]]
+        if style == "bounded_per_element":
+            return ["forall", x, v, None, "start", ["exists_int", i, ["and", bound, ["count", ["v", v], n, ["v", i]]]]]
+        return ["exists_int", i, ["and", bound, ["forall", x, v, None, "start", ["count", ["v", v], n, ["v", i]]]]]
     if style == "fixed":
         return ["count", ["v", "start"], rng.choice(ctx.nts), ["i", rng.randint(1, 4)]]
     v = ctx.fresh(x[1:-1])
@@ -515,7 +524,46 @@ _GRAMMAR_FOR_FEATURES: List[Any] = [None]
 def features_with_grammar(f, grammar) -> List[str]:
     _GRAMMAR_FOR_FEATURES[0] = grammar
     try:
-        return features(f)
+        out = set(features(f))
+        # an SMT atom that relates two tree variables one of which may lie inside the
+        # other (its type is reachable from the other's type, or the types are equal)
+        r = reach(grammar)
+        types: Dict[str, str] = {"start": "<start>"}
+
+        def collect_types(g):
+            if isinstance(g, list) and g:
+                if g[0] in ("forall", "exists") and len(g) == 6:
+                    types[g[2]] = g[1]
+                    for el in g[3] or []:
+                        if el[0] == "b":
+                            types[el[1]] = el[2]
+                for x in g:
+                    collect_types(x)
+
+        collect_types(f)
+
+        def tvars(t, acc):
+            if isinstance(t, list):
+                if len(t) == 2 and t[0] == "v" and t[1] in types:
+                    acc.add(t[1])
+                for x in t:
+                    tvars(x, acc)
+
+        def walk(g):
+            if isinstance(g, list) and g:
+                if g[0] == "smt":
+                    vs = set()
+                    tvars(g[1], vs)
+                    vs = sorted(vs)
+                    for a in vs:
+                        for b in vs:
+                            if a != b and (types[b] == types[a] or types[b] in r.get(types[a], ())):
+                                out.add("smt_atom_over_possibly_nested_variables")
+                for x in g:
+                    walk(x)
+
+        walk(f)
+        return sorted(out)
     finally:
         _GRAMMAR_FOR_FEATURES[0] = None
 
